@@ -59,6 +59,14 @@ FlinkSQL supports advanced features like:
 flink_dialect.sets("reserved_keywords").update(RESERVED_KEYWORDS)
 flink_dialect.sets("unreserved_keywords").update(UNRESERVED_KEYWORDS)
 
+# Keywords which grammar elements of this dialect (including inherited
+# ones) refer to, but which are in neither keyword set.
+flink_dialect.sets("unreserved_keywords").update(
+    [
+        "BUCKETS",
+    ]
+)
+
 # Add FlinkSQL-specific lexer patterns
 flink_dialect.patch_lexer_matchers(
     [
